@@ -50,12 +50,14 @@ Definition mk_flow (r : list Z) : flow :=
 Record epinfo := {
   e_started : Z; e_closed : Z; e_class : Z; e_closed_us : Z; e_last_rx : Z;
   e_idle_base : Z;     (* last processed packet, or the first ack-eliciting send after it *)
-  e_max_pto : Z; e_tstarted : Z; e_tdone : Z; e_last_done : Z }.
+  e_max_pto : Z; e_tstarted : Z; e_tdone : Z; e_last_done : Z;
+  e_tp_rx : Z;         (* the peer's transport parameters arrived: the idle timeout is negotiated *)
+  e_conn_start : Z }.
 
 Definition mk_ep (r : list Z) : epinfo :=
   {| e_started := nz r 0; e_closed := nz r 1; e_class := nz r 2; e_closed_us := nz r 3;
      e_last_rx := nz r 4; e_idle_base := nz r 5; e_max_pto := nz r 6; e_tstarted := nz r 7;
-     e_tdone := nz r 8; e_last_done := nz r 9 |}.
+     e_tdone := nz r 8; e_last_done := nz r 9; e_tp_rx := nz r 10; e_conn_start := nz r 11 |}.
 
 (* one frame of a sent packet (r_dir = 0) or of a processed packet (r_dir = 1) *)
 Record frec := {
@@ -113,22 +115,29 @@ Definition flow_complete (f : flow) : bool :=
 
 (* every value in microseconds; the initial PTO of s2n-quic (333 ms initial RTT) is 999 ms: the
    bound uses at least 1.1 s per PTO and 100 ms of slack for timer granularity *)
-Definition deadline (idle_ms : Z) (e : epinfo) : Z :=
+Definition idle_deadline (idle_ms : Z) (e : epinfo) : Z :=
   e_idle_base e + Z.max (idle_ms * 1000) (3 * Z.max (e_max_pto e) 1100000) + 100000.
 
+(* before the peer's transport parameters arrive no idle timeout is negotiated: the configured
+   handshake duration limit bounds the wait instead *)
+Definition deadline (idle_ms hs_ms : Z) (e : epinfo) : Z :=
+  if e_tp_rx e =? 1 then idle_deadline idle_ms e
+  else Z.max (idle_deadline idle_ms e) (e_conn_start e + hs_ms * 1000 + 100000).
+
 (* an endpoint under a permanent blackhole: nothing to report, or reported in time *)
-Definition ep_reports (idle_ms : Z) (e : epinfo) : bool :=
+Definition ep_reports (idle_ms hs_ms : Z) (e : epinfo) : bool :=
   (e_tdone e =? e_tstarted e) &&
   ((e_started e =? 0) ||
-   ((e_closed e =? 1) && (e_closed_us e <=? deadline idle_ms e) && (e_last_done e <=? deadline idle_ms e))).
+   ((e_closed e =? 1) && (e_closed_us e <=? deadline idle_ms hs_ms e) &&
+    (e_last_done e <=? deadline idle_ms hs_ms e))).
 
-Definition c02_ok (watchdog connect_ok n_bidi n_uni idle_ms perm_bh : Z) (c s : epinfo) (fl : list flow) : bool :=
+Definition c02_ok (watchdog connect_ok n_bidi n_uni idle_ms hs_ms perm_bh : Z) (c s : epinfo) (fl : list flow) : bool :=
   (watchdog =? 0) &&
   (if perm_bh =? 1 then
      (* either everything completed before the blackhole bit, or both sides report in time *)
      (forallb flow_complete fl && (Z.of_nat (length fl) =? 2 * n_bidi + n_uni) &&
       (e_tdone c =? e_tstarted c) && (e_tdone s =? e_tstarted s))
-     || (ep_reports idle_ms c && ep_reports idle_ms s)
+     || (ep_reports idle_ms hs_ms c && ep_reports idle_ms hs_ms s)
    else
      (connect_ok =? 1) && forallb flow_complete fl && (Z.of_nat (length fl) =? 2 * n_bidi + n_uni) &&
      (e_tdone c =? e_tstarted c) && (e_tdone s =? e_tstarted s)).
@@ -264,18 +273,18 @@ Definition c03_ok (recs : list frec) : bool := scan03 st03_init recs.
 (* ------------------------------------------------------------------------------------------ *)
 (* e2e_stream: layout of the harness output and the judge                                     *)
 (* ------------------------------------------------------------------------------------------ *)
-(* [1, watchdog, end_us, last_progress_us, connect_ok, n_bidi, n_uni, idle_ms, perm_bh,
-    client x10, server x10, n_flows, flows x10, n_opened, opened.., capped, n_records, records x11] *)
+(* [1, watchdog, end_us, last_progress_us, connect_ok, n_bidi, n_uni, idle_ms, perm_bh, hs_ms,
+    client x12, server x12, n_flows, flows x10, n_opened, opened.., capped, n_records, records x11] *)
 
 Record strace := {
-  t_watchdog : Z; t_connect_ok : Z; t_n_bidi : Z; t_n_uni : Z; t_idle_ms : Z; t_perm_bh : Z;
+  t_watchdog : Z; t_connect_ok : Z; t_n_bidi : Z; t_n_uni : Z; t_idle_ms : Z; t_perm_bh : Z; t_hs_ms : Z;
   t_client : epinfo; t_server : epinfo; t_flows : list flow; t_opened : list Z; t_recs : list frec }.
 
 Definition parse_stream (out : list Z) : option strace :=
-  if negb ((nz out 0 =? 1) && Nat.leb 30 (length out)) then None else
-  let c := mk_ep (firstn 10 (skipn 9 out)) in
-  let s := mk_ep (firstn 10 (skipn 19 out)) in
-  match take_rows 10 (nz out 29) (skipn 30 out) with
+  if negb ((nz out 0 =? 1) && Nat.leb 35 (length out)) then None else
+  let c := mk_ep (firstn 12 (skipn 10 out)) in
+  let s := mk_ep (firstn 12 (skipn 22 out)) in
+  match take_rows 10 (nz out 34) (skipn 35 out) with
   | None => None
   | Some (frows, rest) =>
       match take_rows 1 (nz rest 0) (skipn 1 rest) with
@@ -286,7 +295,7 @@ Definition parse_stream (out : list Z) : option strace :=
           | Some (rrows, rest3) =>
               match rest3 with
               | [] => Some {| t_watchdog := nz out 1; t_connect_ok := nz out 4; t_n_bidi := nz out 5;
-                              t_n_uni := nz out 6; t_idle_ms := nz out 7; t_perm_bh := nz out 8;
+                              t_n_uni := nz out 6; t_idle_ms := nz out 7; t_perm_bh := nz out 8; t_hs_ms := nz out 9;
                               t_client := c; t_server := s; t_flows := map mk_flow frows;
                               t_opened := map (fun r => nz r 0) orows; t_recs := map mk_frec rrows |}
               | _ => None
@@ -297,7 +306,7 @@ Definition parse_stream (out : list Z) : option strace :=
 
 Definition stream_monitor (t : strace) : bool :=
   c01_ok (t_flows t) &&
-  c02_ok (t_watchdog t) (t_connect_ok t) (t_n_bidi t) (t_n_uni t) (t_idle_ms t) (t_perm_bh t)
+  c02_ok (t_watchdog t) (t_connect_ok t) (t_n_bidi t) (t_n_uni t) (t_idle_ms t) (t_hs_ms t) (t_perm_bh t)
          (t_client t) (t_server t) (t_flows t) &&
   c12_ok (t_recs t) (t_opened t) &&
   c03_ok (t_recs t).
@@ -307,6 +316,137 @@ Definition e2e_stream_judge (case out : list Z) : bool :=
   | Some t => stream_monitor t
   | None => false
   end.
+
+(* ------------------------------------------------------------------------------------------ *)
+(* e2e_amp (C11): the wire log                                                                *)
+(* ------------------------------------------------------------------------------------------ *)
+(* [1, server_id, client_id, n_raw, server_first_handshake_rx_us, connect_ok, watchdog, capped,
+    n_wire, wire x7: (t_us, kind, src, dst, len, first byte, class)]
+   kind 0 = put on the wire by src; 1 = delivered to dst; 2 = the server processed the first
+   client Handshake packet (address validated).
+   class 0 short header; 1 datagram contains an Initial packet; 2 other long header;
+   3 Version Negotiation; 4 too short to tell *)
+
+Record wrec := { w_t : Z; w_kind : Z; w_src : Z; w_dst : Z; w_len : Z; w_fb : Z; w_class : Z }.
+
+Definition mk_wrec (r : list Z) : wrec :=
+  {| w_t := nz r 0; w_kind := nz r 1; w_src := nz r 2; w_dst := nz r 3; w_len := nz r 4;
+     w_fb := nz r 5; w_class := nz r 6 |}.
+
+(* sent by the server to address [a] *)
+Definition srv_to (srv a : Z) (e : wrec) : bool :=
+  (w_kind e =? 0) && (w_src e =? srv) && (w_dst e =? a).
+(* delivered to the server from address [a] *)
+Definition to_srv_from (srv a : Z) (e : wrec) : bool :=
+  (w_kind e =? 1) && (w_dst e =? srv) && (w_src e =? a).
+Definition is_marker (e : wrec) : bool := w_kind e =? 2.
+
+(* a reply to an address that has no connection: the most recent event concerning that address
+   must be the delivery of a datagram from it (one reply per trigger), and
+   - a Version Negotiation reply needs a trigger of at least 1200 bytes that is not itself
+     Version Negotiation,
+   - any other reply (stateless reset) must be strictly smaller than the trigger *)
+Definition reply_ok (srv : Z) (seen : list wrec) (e : wrec) : bool :=
+  let a := w_dst e in
+  match find (fun t => srv_to srv a t || to_srv_from srv a t) seen with
+  | Some t => to_srv_from srv a t &&
+              (if w_class e =? 3 then (1200 <=? w_len t) && negb (w_class t =? 3)
+               else w_len e <? w_len t)
+  | None => false
+  end.
+
+(* [seen] = the events so far, newest first; recv / sent = bytes the server received from / sent
+   to the client's address so far; valid = the marker was seen *)
+Fixpoint amp_scan (srv cli : Z) (seen : list wrec) (recv sent : Z) (valid : bool) (l : list wrec) : bool :=
+  match l with
+  | [] => true
+  | e :: t =>
+      (if (w_kind e =? 0) && (w_src e =? srv) then
+         if w_dst e =? cli
+         then valid || (sent <? 3 * recv)            (* checked when the send starts *)
+         else reply_ok srv seen e
+       else true) &&
+      (* a client datagram carrying an Initial packet is at least 1200 bytes *)
+      (if (w_kind e =? 0) && (w_src e =? cli) && (w_class e =? 1) then 1200 <=? w_len e else true) &&
+      (0 <=? w_len e) &&
+      amp_scan srv cli (e :: seen)
+        (if to_srv_from srv cli e then recv + w_len e else recv)
+        (if srv_to srv cli e then sent + w_len e else sent)
+        (valid || is_marker e) t
+  end.
+
+Definition e2e_amp_judge (case out : list Z) : bool :=
+  if negb ((nz out 0 =? 1) && Nat.leb 9 (length out)) then false else
+  match take_rows 7 (nz out 8) (skipn 9 out) with
+  | Some (rws, []) =>
+      (nz out 6 =? 0) &&
+      amp_scan (nz out 1) (nz out 2) [] 0 0 false (map mk_wrec rws)
+  | _ => false
+  end.
+
+(* ------------------------------------------------------------------------------------------ *)
+(* e2e_inject (C06)                                                                           *)
+(* ------------------------------------------------------------------------------------------ *)
+(* [1, watchdog, connect_ok, n_bidi, n_uni, client x12, server x12, n_flows, flows x10,
+    injected x6, then per endpoint: capped, n, (space, pn, genuine) x n sorted by (space, pn)] *)
+
+Record prec := { p_space : Z; p_pn : Z; p_genuine : Z }.
+Definition mk_prec (r : list Z) : prec := {| p_space := nz r 0; p_pn := nz r 1; p_genuine := nz r 2 |}.
+
+Definition key_lt (a b : prec) : bool :=
+  (p_space a <? p_space b) || ((p_space a =? p_space b) && (p_pn a <? p_pn b)).
+
+(* strictly increasing in (space, packet number): no pair is processed twice *)
+Fixpoint strictly_sorted (l : list prec) : bool :=
+  match l with
+  | [] => true
+  | a :: t => match t with
+              | [] => true
+              | b :: _ => key_lt a b && strictly_sorted t
+              end
+  end.
+
+Definition processed_ok (l : list prec) : bool :=
+  forallb (fun p => p_genuine p =? 1) l && strictly_sorted l.
+
+Definition ep_alive (e : epinfo) : bool :=
+  (e_tdone e =? e_tstarted e) && ((e_closed e =? 0) || (e_class e =? 1)).
+
+Definition e2e_inject_judge (case out : list Z) : bool :=
+  if negb ((nz out 0 =? 1) && Nat.leb 30 (length out)) then false else
+  let c := mk_ep (firstn 12 (skipn 5 out)) in
+  let s := mk_ep (firstn 12 (skipn 17 out)) in
+  match take_rows 10 (nz out 29) (skipn 30 out) with
+  | None => false
+  | Some (frows, rest) =>
+      let fl := map mk_flow frows in
+      let rest1 := skipn 6 rest in
+      match take_rows 3 (nz rest1 1) (skipn 2 rest1) with
+      | None => false
+      | Some (prc, rest2) =>
+          match take_rows 3 (nz rest2 1) (skipn 2 rest2) with
+          | Some (prs, []) =>
+              (nz out 1 =? 0) && (nz out 2 =? 1) &&
+              c01_ok fl && forallb flow_complete fl &&
+              (Z.of_nat (length fl) =? 2 * nz out 3 + nz out 4) &&
+              ep_alive c && ep_alive s &&
+              processed_ok (map mk_prec prc) && processed_ok (map mk_prec prs)
+          | _ => false
+          end
+      end
+  end.
+
+(* the same trace judged for one property only (so that each property's check reports only its own
+   violations when the component is attached to several properties) *)
+Definition stream_part (m : strace -> bool) (out : list Z) : bool :=
+  match parse_stream out with Some t => m t | None => false end.
+
+Definition e2e_stream_judge_c01 (case out : list Z) : bool := stream_part (fun t => c01_ok (t_flows t)) out.
+Definition e2e_stream_judge_c02 (case out : list Z) : bool :=
+  stream_part (fun t => c02_ok (t_watchdog t) (t_connect_ok t) (t_n_bidi t) (t_n_uni t) (t_idle_ms t)
+                               (t_hs_ms t) (t_perm_bh t) (t_client t) (t_server t) (t_flows t)) out.
+Definition e2e_stream_judge_c12 (case out : list Z) : bool := stream_part (fun t => c12_ok (t_recs t) (t_opened t)) out.
+Definition e2e_stream_judge_c03 (case out : list Z) : bool := stream_part (fun t => c03_ok (t_recs t)) out.
 
 (* there is no model run for the e2e components: the implementation is judged alone *)
 Definition e2e_run (case : list Z) : list Z := [].
